@@ -63,55 +63,44 @@ c20_twoseg(K, Cs, L) :- length(F, K), append(F, B, Cs), c20_cc(F, [], FL), c20_a
 c20_assert(S, L) :- retractall(c20_tmp(_)), assertz(c20_tmp(S)), c20_tmp(L), retract(c20_tmp(_)).
 
 c20_t(G, X, R) :- catch(( G -> R = some(X) ; R = none ), error(E, _), R = err(E)).
+% a result that should be a character list is handed back as its code list (flat for the answer channel)
+c20_l(G, X, R) :- catch(( G -> ( c20_codes(X, Cs) -> R = some(codes(Cs)) ; R = some(raw(X)) ) ; R = none ), error(E, _), R = err(E)).
+c20_codes(L, Cs) :- L == [], !, Cs = [].
+c20_codes(L, Cs) :- nonvar(L), L = [C|T], atom(C), atom_length(C, 1), char_code(C, X), Cs = [X|Xs], c20_codes(T, Xs).
 c20_b(G, R) :- catch(( G -> R = true ; R = false ), error(E, _), R = err(E)).
 
 c20_obs(Big, A, B, K, o(U,E,O,Lt,N,App,Spl,Nth,H,T,Ar,Nm,Un,Cp,Fa,As,Ac,So,Ks,G,TV,W)) :-
-    c20_b(A = B, U),
-    c20_b(A == B, E),
-    c20_t(compare(O0, A, B), O0, O),
-    c20_b(A @< B, Lt),
-    c20_t(length(A, N0), N0, N),
-    c20_t(append(A, B, App0), App0, App),
-    (  Big == true -> Spl = skipped
-    ;  c20_t((findall(X-Y, append(X, Y, A), Sp), length(Sp, Spl0)), Spl0, Spl) ),
-    c20_t(nth0(K, A, C), C, Nth),
-    c20_t(arg(1, A, H0), H0, H),
-    c20_t(arg(2, A, T0), T0, T),
-    c20_t(functor(A, Nm0, _), Nm0, Nm),
-    c20_t(functor(A, _, Ar0), Ar0, Ar),
-    c20_t((A =.. Un0, length(Un0, Un1)), Un1, Un),
-    c20_t(copy_term(A, Cp0), Cp0, Cp),
-    c20_t(findall(Z, Z = A, [Fa0]), Fa0, Fa),
-    c20_t(c20_assert(A, As0), As0, As),
-    c20_t((atom_chars(At, A), atom_chars(At, Ac0)), Ac0, Ac),
-    c20_t(sort(A, So0), So0, So),
-    c20_t((pairs_keys_values(P, A, A), keysort(P, Q), pairs_keys(Q, Ks0)), Ks0, Ks),
-    c20_b(ground(A), G),
-    c20_t((term_variables(A, TV0), length(TV0, TV1)), TV1, TV),
-    c20_t(write_term_to_chars(A, [quoted(true)], W0), W0, W).
+    c20_op(unify, Big, A, B, K, U), c20_op(eq, Big, A, B, K, E), c20_op(compare, Big, A, B, K, O), c20_op(lt, Big, A, B, K, Lt),
+    c20_op(length, Big, A, B, K, N), c20_op(append, Big, A, B, K, App),
+    (  Big == true -> Spl = skipped ; c20_op(append_splits, Big, A, B, K, Spl) ),
+    c20_op(nth0, Big, A, B, K, Nth), c20_op(arg1, Big, A, B, K, H), c20_op(arg2, Big, A, B, K, T),
+    c20_op(functor_arity, Big, A, B, K, Ar), c20_op(functor_name, Big, A, B, K, Nm), c20_op(univ, Big, A, B, K, Un),
+    c20_op(copy_term, Big, A, B, K, Cp), c20_op(findall, Big, A, B, K, Fa), c20_op(assert_retrieve, Big, A, B, K, As),
+    c20_op(atom_chars, Big, A, B, K, Ac), c20_op(sort, Big, A, B, K, So), c20_op(keysort, Big, A, B, K, Ks),
+    c20_op(ground, Big, A, B, K, G), c20_op(term_variables, Big, A, B, K, TV), c20_op(writeq, Big, A, B, K, W).
 
 c20_op(unify, _, A, B, _, R) :- c20_b(A = B, R).
 c20_op(eq, _, A, B, _, R) :- c20_b(A == B, R).
 c20_op(compare, _, A, B, _, R) :- c20_t(compare(O, A, B), O, R).
 c20_op(lt, _, A, B, _, R) :- c20_b(A @< B, R).
 c20_op(length, _, A, _, _, R) :- c20_t(length(A, N), N, R).
-c20_op(append, _, A, B, _, R) :- c20_t(append(A, B, X), X, R).
+c20_op(append, _, A, B, _, R) :- c20_l(append(A, B, X), X, R).
 c20_op(append_splits, _, A, _, _, R) :- c20_t((findall(X-Y, append(X, Y, A), Sp), length(Sp, N)), N, R).
 c20_op(nth0, _, A, _, K, R) :- c20_t(nth0(K, A, C), C, R).
 c20_op(arg1, _, A, _, _, R) :- c20_t(arg(1, A, X), X, R).
-c20_op(arg2, _, A, _, _, R) :- c20_t(arg(2, A, X), X, R).
+c20_op(arg2, _, A, _, _, R) :- c20_l(arg(2, A, X), X, R).
 c20_op(functor_name, _, A, _, _, R) :- c20_t(functor(A, X, _), X, R).
 c20_op(functor_arity, _, A, _, _, R) :- c20_t(functor(A, _, X), X, R).
 c20_op(univ, _, A, _, _, R) :- c20_t((A =.. L, length(L, N)), N, R).
-c20_op(copy_term, _, A, _, _, R) :- c20_t(copy_term(A, X), X, R).
-c20_op(findall, _, A, _, _, R) :- c20_t(findall(Z, Z = A, [X]), X, R).
-c20_op(assert_retrieve, _, A, _, _, R) :- c20_t(c20_assert(A, X), X, R).
-c20_op(atom_chars, _, A, _, _, R) :- c20_t((atom_chars(At, A), atom_chars(At, X)), X, R).
-c20_op(sort, _, A, _, _, R) :- c20_t(sort(A, X), X, R).
-c20_op(keysort, _, A, _, _, R) :- c20_t((pairs_keys_values(P, A, A), keysort(P, Q), pairs_keys(Q, X)), X, R).
+c20_op(copy_term, _, A, _, _, R) :- c20_l(copy_term(A, X), X, R).
+c20_op(findall, _, A, _, _, R) :- c20_l(findall(Z, Z = A, [X]), X, R).
+c20_op(assert_retrieve, _, A, _, _, R) :- c20_l(c20_assert(A, X), X, R).
+c20_op(atom_chars, _, A, _, _, R) :- c20_l((atom_chars(At, A), atom_chars(At, X)), X, R).
+c20_op(sort, _, A, _, _, R) :- c20_l(sort(A, X), X, R).
+c20_op(keysort, _, A, _, _, R) :- c20_l((pairs_keys_values(P, A, A), keysort(P, Q), pairs_keys(Q, X)), X, R).
 c20_op(ground, _, A, _, _, R) :- c20_b(ground(A), R).
 c20_op(term_variables, _, A, _, _, R) :- c20_t((term_variables(A, V), length(V, N)), N, R).
-c20_op(writeq, _, A, _, _, R) :- c20_t(write_term_to_chars(A, [quoted(true)], X), X, R).
+c20_op(writeq, _, A, _, _, R) :- c20_l(write_term_to_chars(A, [quoted(true)], X), X, R).
 
 c20_pop(eq, A, _, B, _, R) :- c20_b(A == B, R).
 c20_pop(compare, A, _, B, _, R) :- c20_t(compare(O, A, B), O, R).
@@ -401,12 +390,16 @@ def decode_obs(o):
         t = some(a[i])
         if t is not None and t[0] == "int": return str(t[1])
         bad.append((FIELDS[i], terms.to_prolog(a[i]))); return "0"
+    def codelist(t):
+        if t is None or not (t[0] == "cmp" and t[1] == "codes"): return None
+        items, tail = terms.list_view(t[2][0])
+        if tail != NIL or any(x[0] != "int" for x in items): return None
+        return [x[1] for x in items]
     def chars(i):
-        t = some(a[i])
-        s = chars_of(t) if t is not None else None
-        if s is None:
+        cl = codelist(some(a[i]))
+        if cl is None:
             bad.append((FIELDS[i], terms.to_prolog(a[i])[:200])); return "[]"
-        return coq_codes(s)
+        return "[" + ";".join(map(str, cl)) + "]"
     def optchar(i):
         t = some(a[i])
         if t is not None and t[0] == "atom" and len(t[1]) == 1: return "(Some %d)" % ord(t[1])
@@ -422,8 +415,8 @@ def decode_obs(o):
     if a[6] == ("atom", "skipped"): f["o_splits"] = "None"
     else: f["o_splits"] = "(Some %s)" % integer(6)
     f["o_nth"] = optchar(7); f["o_head"] = optchar(8)
-    t = some(a[9])
-    if t is not None and chars_of(t) is not None: f["o_tail"] = "(Some %s)" % coq_codes(chars_of(t))
+    cl = codelist(some(a[9]))
+    if cl is not None: f["o_tail"] = "(Some [%s])" % ";".join(map(str, cl))
     elif a[9][0] == "cmp" and a[9][1] == "err": f["o_tail"] = "None"
     else:
         bad.append(("arg2", terms.to_prolog(a[9])[:200])); f["o_tail"] = "None"
@@ -435,8 +428,8 @@ def decode_obs(o):
     f["o_univ"] = integer(12)
     f["o_copy"] = chars(13); f["o_findall"] = chars(14); f["o_assert"] = chars(15); f["o_atomchars"] = chars(16)
     f["o_sort"] = chars(17); f["o_ksort"] = chars(18); f["o_ground"] = boolean(19); f["o_nvars"] = integer(20)
-    w = some(a[21])
-    wtext = chars_of(w) if w is not None else None
+    wl = codelist(some(a[21]))
+    wtext = "".join(map(chr, wl)) if wl is not None else None
     if wtext is None: bad.append(("writeq", terms.to_prolog(a[21])[:200]))
     rec = "{| " + "; ".join("%s := %s" % kv for kv in f.items()) + " |}"
     return rec, bad, wtext
@@ -628,9 +621,10 @@ def run(ctx):
     allcases = []
     def addq(lst, qid, prefix, big, k, consult, info):
         bigt = "true" if big else "false"
-        lst.append((qid, "%sc20_obs(%s, A, B, %d, O)." % (prefix, bigt, k), consult))
+        prefix = "findall(O1, (" + prefix
+        lst.append((qid, "%sc20_obs(%s, A, B, %d, O1)), [O])." % (prefix, bigt, k), consult))
         qinfo[qid] = info
-        qparts[qid] = (prefix, lambda op, bigt=bigt, k=k: "c20_op(%s, %s, A, B, %d, R)." % (op, bigt, k))
+        qparts[qid] = (prefix, lambda op, bigt=bigt, k=k: "c20_op(%s, %s, A, B, %d, O1)), [O])." % (op, bigt, k))
     for c in cases + tcases:
         ci = len(allcases); allcases.append(c)
         a, b, big = c["a"], c["b"], c["big"]
